@@ -62,6 +62,25 @@ func c04(tier string) {
 			uniq = append(uniq, t)
 		}
 	}
+	// documents of 64 KiB - 1.1 MiB damaged without a change of length (a byte overwritten in the tail, the middle or the
+	// head): each is judged right after its intact twin was validated by the same process
+	origin := map[string]string{}
+	for k, size := range []int{64 << 10, 66 << 10, 130 << 10, 260 << 10, 1100 << 10}[:ctx.N(4, 5)] {
+		rr := lib.CaseRand(ctx.Seed, 5, 3000+k)
+		big := c18BulkData(c02Graph(rr), size)
+		for j, at := range []int{len(big) - 2 - rr.Intn(200), len(big) - len(big)/4 + rr.Intn(1000), len(big) / 2, 70<<10 + rr.Intn(100), 1 + rr.Intn(40)} {
+			if at <= 0 || at >= len(big) {
+				continue
+			}
+			b := []byte(big)
+			b[at] = []byte{0x00, '}', '"', 0x1f, '\\'}[(j+k)%5]
+			if t := string(b); t != big && !seen[t] {
+				seen[t] = true
+				origin[t] = big
+				uniq = append(uniq, t)
+			}
+		}
+	}
 	compiled := make([]lib.Compiled, len(c04Profiles))
 	for i, p := range c04Profiles {
 		compiled[i] = lib.Compile(p, nil)
@@ -107,8 +126,13 @@ func c04(tier string) {
 			}
 		}
 		// a good document first, then the same unreadable text through every entry point, twice in a row
-		if g := lib.ValidateCompiled(compiled[pi].Q, c04Good); g.Failed() {
-			ctx.Violation("good-document-failed", "reference document failed: "+g.ErrString(), map[string]any{"profile": ptext, "data": c04Good})
+		good := c04Good
+		if o, ok := origin[text]; ok {
+			good = o // the intact document this text was made from
+			ctx.Count("large_texts_judged_after_their_intact_twin", 1)
+		}
+		if g := lib.ValidateCompiled(compiled[pi].Q, good); g.Failed() {
+			ctx.Violation("good-document-failed", "reference document failed: "+g.ErrString(), map[string]any{"profile": ptext, "data": good})
 		}
 		judge("ValidateCompiledWithConfiguration", lib.ValidateCompiledCfg(compiled[pi].Q, text, nil, lib.Epoch2000, config.DefaultReportConfiguration()))
 		judge("ValidateCompiledWithConfiguration(again)", lib.ValidateCompiledCfg(compiled[pi].Q, text, nil, lib.Epoch2000, config.DefaultReportConfiguration()))
